@@ -176,10 +176,9 @@ static ZSTDMT_bufferPool* ZSTDMT_expandBufferPool(ZSTDMT_bufferPool* srcBufPool,
     /* need a larger buffer pool */
     {   ZSTD_customMem const cMem = srcBufPool->cMem;
         size_t const bSize = srcBufPool->bufferSize;   /* forward parameters */
-        ZSTDMT_bufferPool* newBufPool;
+        ZSTDMT_bufferPool* const newBufPool = ZSTDMT_createBufferPool(maxNbBuffers, cMem);
+        if (newBufPool==NULL) return NULL;   /* srcBufPool is untouched : the caller keeps it */
         ZSTDMT_freeBufferPool(srcBufPool);
-        newBufPool = ZSTDMT_createBufferPool(maxNbBuffers, cMem);
-        if (newBufPool==NULL) return newBufPool;
         ZSTDMT_setBufferSize(newBufPool, bSize);
         return newBufPool;
     }
@@ -409,8 +408,10 @@ static ZSTDMT_CCtxPool* ZSTDMT_expandCCtxPool(ZSTDMT_CCtxPool* srcPool,
     if (nbWorkers <= srcPool->totalCCtx) return srcPool;   /* good enough */
     /* need a larger cctx pool */
     {   ZSTD_customMem const cMem = srcPool->cMem;
+        ZSTDMT_CCtxPool* const newPool = ZSTDMT_createCCtxPool(nbWorkers, cMem);
+        if (newPool==NULL) return NULL;   /* srcPool is untouched : the caller keeps it */
         ZSTDMT_freeCCtxPool(srcPool);
-        return ZSTDMT_createCCtxPool(nbWorkers, cMem);
+        return newPool;
     }
 }
 
@@ -915,10 +916,10 @@ static ZSTDMT_jobDescription* ZSTDMT_createJobsTable(U32* nbJobsPtr, ZSTD_custom
 static size_t ZSTDMT_expandJobsTable (ZSTDMT_CCtx* mtctx, U32 nbWorkers) {
     U32 nbJobs = nbWorkers + 2;
     if (nbJobs > mtctx->jobIDMask+1) {  /* need more job capacity */
+        ZSTDMT_jobDescription* const newJobs = ZSTDMT_createJobsTable(&nbJobs, mtctx->cMem);
+        if (newJobs==NULL) return ERROR(memory_allocation);   /* the current table is kept */
         ZSTDMT_freeJobsTable(mtctx->jobs, mtctx->jobIDMask+1, mtctx->cMem);
-        mtctx->jobIDMask = 0;
-        mtctx->jobs = ZSTDMT_createJobsTable(&nbJobs, mtctx->cMem);
-        if (mtctx->jobs==NULL) return ERROR(memory_allocation);
+        mtctx->jobs = newJobs;
         assert((nbJobs != 0) && ((nbJobs & (nbJobs - 1)) == 0));  /* ensure nbJobs is a power of 2 */
         mtctx->jobIDMask = nbJobs - 1;
     }
@@ -1067,12 +1068,19 @@ static size_t ZSTDMT_resize(ZSTDMT_CCtx* mtctx, unsigned nbWorkers)
 {
     if (POOL_resize(mtctx->factory, nbWorkers)) return ERROR(memory_allocation);
     FORWARD_IF_ERROR( ZSTDMT_expandJobsTable(mtctx, nbWorkers) , "");
-    mtctx->bufPool = ZSTDMT_expandBufferPool(mtctx->bufPool, BUF_POOL_MAX_NB_BUFFERS(nbWorkers));
-    if (mtctx->bufPool == NULL) return ERROR(memory_allocation);
-    mtctx->cctxPool = ZSTDMT_expandCCtxPool(mtctx->cctxPool, nbWorkers);
-    if (mtctx->cctxPool == NULL) return ERROR(memory_allocation);
-    mtctx->seqPool = ZSTDMT_expandSeqPool(mtctx->seqPool, nbWorkers);
-    if (mtctx->seqPool == NULL) return ERROR(memory_allocation);
+    /* a pool that cannot be expanded is kept as it is : the context stays usable with its previous nbWorkers */
+    {   ZSTDMT_bufferPool* const bufPool = ZSTDMT_expandBufferPool(mtctx->bufPool, BUF_POOL_MAX_NB_BUFFERS(nbWorkers));
+        if (bufPool == NULL) return ERROR(memory_allocation);
+        mtctx->bufPool = bufPool;
+    }
+    {   ZSTDMT_CCtxPool* const cctxPool = ZSTDMT_expandCCtxPool(mtctx->cctxPool, nbWorkers);
+        if (cctxPool == NULL) return ERROR(memory_allocation);
+        mtctx->cctxPool = cctxPool;
+    }
+    {   ZSTDMT_seqPool* const seqPool = ZSTDMT_expandSeqPool(mtctx->seqPool, nbWorkers);
+        if (seqPool == NULL) return ERROR(memory_allocation);
+        mtctx->seqPool = seqPool;
+    }
     ZSTDMT_CCtxParam_setNbWorkers(&mtctx->params, nbWorkers);
     return 0;
 }
